@@ -635,7 +635,10 @@ def make_goals(tier, rng):
         if sampled0 and which == "fnum" and tier == "quick" and not (c["eta"] <= 3 and c["kw"] == 785) and k not in (1, ln - 1):
           continue   # seconds per goal: quick keeps all coefficients for eta <= 3 at one point, else two per case
         if sampled0 and which == "fnum" and tier == "quick" and c["eta"] >= 5 and c["kw"] not in (785, 50):
-          continue   # eta = 5, 6 (about 10 s per goal): two points in quick, everything in thorough
+          continue   # eta = 5, 6 (about 10 s per goal): two points in quick
+        if sampled0 and which == "fnum" and tier != "quick" and c["eta"] >= 4 and c["kw"] != 785 \
+           and k not in (1, ln // 2, ln - 1):
+          continue   # thorough: all coefficients at the fixed point (785, 100), three per case elsewhere for eta >= 4
         v = vals[k]
         stmt = "verdict (nth %d (%s %s) 0) %s %s" % (k, which, term, rlit(v), rlit(tol_for(v, sampled0 and which == "fnum")))
         # the first section of gammatone.sampled goes through the closed form of the iterated derivative
